@@ -36,12 +36,15 @@ type scenario struct {
 	Discards []int // per data message: -1 read fully, otherwise bytes to read before Discard()
 	Want     ws.OpCode
 	Reuse    bool
+	// ContRead: the OnContinuation callback reads this many bytes (at most) of every
+	// continuation body; they are consumed by the callback, the rest is delivered by Read.
+	ContRead int
 }
 
 func (s scenario) describe() interface{} {
 	return map[string]interface{}{
 		"entry": s.Entry, "state": int(s.State), "chunks": s.Chunks, "eof_with_data": s.EOFData,
-		"bufsize": s.BufSize, "frames": ref.Describe(s.Frames), "discards": s.Discards, "want": int(s.Want),
+		"bufsize": s.BufSize, "frames": ref.Describe(s.Frames), "discards": s.Discards, "want": int(s.Want), "oncontinuation_reads": s.ContRead,
 	}
 }
 
@@ -150,7 +153,21 @@ func runReader(s scenario) error {
 		got = append(got, seen{"ictl", byte(h.OpCode), p})
 		return nil
 	}
-	rd.OnContinuation = func(h ws.Header, r io.Reader) error { return nil }
+	var contTaken [][]byte
+	rd.OnContinuation = func(h ws.Header, r io.Reader) error {
+		k := int64(s.ContRead)
+		if k > h.Length {
+			k = h.Length
+		}
+		p := make([]byte, k)
+		if _, err := io.ReadFull(r, p); err != nil {
+			cbErr = fmt.Errorf("OnContinuation: reading %d of %d body bytes: %v", k, h.Length, err)
+			return cbErr
+		}
+		contTaken = append(contTaken, p)
+		return nil
+	}
+	_ = contTaken
 
 	msgIdx := 0
 	// expected sequence, filtered/adjusted below
@@ -182,6 +199,34 @@ func runReader(s scenario) error {
 		}
 	}
 
+	if s.ContRead > 0 {
+		// what Read delivers = the message minus the first ContRead bytes of every continuation frame
+		wi := 0
+		for _, e := range evs {
+			if e.Kind == "ctl" {
+				wi++
+				continue
+			}
+			var p []byte
+			for i := e.First; i <= e.At; i++ {
+				f := s.Frames[i]
+				if ref.IsControl(f.H.Op) {
+					continue
+				}
+				b := f.Payload
+				if f.H.Op == ref.OpCont {
+					k := s.ContRead
+					if k > len(b) {
+						k = len(b)
+					}
+					b = b[k:]
+				}
+				p = append(p, b...)
+			}
+			want[wi].payload = p
+			wi++
+		}
+	}
 	msgIdx = 0
 	for _, e := range evs {
 		if e.Kind == "ctl" && e.Intermediate {
@@ -477,12 +522,15 @@ func TestReader(t *testing.T) {
 		drawTransport(t, &s)
 		s.UTF8 = rapid.Bool().Draw(t, "utf8")
 		s.Partial = rapid.IntRange(0, 3).Draw(t, "partial") == 0
+		if rapid.IntRange(0, 3).Draw(t, "contread?") == 0 {
+			s.ContRead = rapid.SampledFrom([]int{1, 2, 3, 1000}).Draw(t, "contread")
+		}
 		for _, e := range ref.Events(s.Frames) {
 			if e.Kind != "msg" {
 				continue
 			}
 			d := -1
-			if rapid.IntRange(0, 3).Draw(t, "discard?") == 0 {
+			if s.ContRead == 0 && rapid.IntRange(0, 3).Draw(t, "discard?") == 0 {
 				d = rapid.IntRange(0, len(e.Payload)).Draw(t, "discardAfter")
 			}
 			s.Discards = append(s.Discards, d)
